@@ -91,6 +91,17 @@ fn exh_cfgs(tier: Tier) -> Vec<MCfg> {
             }
         }
     }
+    // with a tap-repress window: the third key does nothing (XX) - it still is "another key"
+    for (h, tt, conc, p) in params(tier) {
+        if tt == 0 {
+            continue;
+        }
+        for variant in VARIANTS {
+            let mut c = th_cfg(variant, false, h, tt, conc, p);
+            c.layers[0][2] = Act::XX;
+            v.push(c);
+        }
+    }
     v
 }
 
@@ -373,7 +384,7 @@ impl TypedProp for C05 {
     fn info(&self) -> PropInfo {
         PropInfo {
             level: "exploration",
-            rule: "exhaustive part: for each tap-hold config (7 variants x hold=key|layer-while-held x parameter tuples (H, tap-repress window, concurrent-tap-hold, rapid-event-delay)) every toggle schedule of 1..N events over the tap-hold key and two other keys with inter-event gaps from {0,1,H-1,H,H+1}; random part: two tap-hold keys of random variants interleaved with a third key, histories up to 30 events; a quarter of the random part has several decisions pending at once: key a is a tap-hold and two defchordsv2 chords have tap-hold actions (a chord's action starts without passing the input queue), each with output keys of its own, random variants and timeouts 80/150/300, plain keys z y, histories of 2-14 toggles (each chord activated at most once, chord keys within 0-3 ms of each other). Oracle: reference model (decision kind, decision tick, complete timestamped output); for the several-pending scenario invariants instead of a model: exactly one tap/hold/timeout output per activation (or the chord's keys themselves), plain keys typed exactly once in their original order, the outcome of an activation precedes every plain key pressed after it (60 ms after a chord's last press), nothing left down. Non-trivial: the decision was taken while >= 1 other event was buffered, or a gap of H-1/H/H+1 occurs in the history. Distinct: hash of (config, history).",
+            rule: "exhaustive part: for each tap-hold config (7 variants x hold=key|layer-while-held x parameter tuples (H, tap-repress window, concurrent-tap-hold, rapid-event-delay); with a tap-repress window also with the third key mapped to XX) every toggle schedule of 1..N events over the tap-hold key and two other keys with inter-event gaps from {0,1,H-1,H,H+1}; random part: two tap-hold keys of random variants interleaved with a third key, histories up to 30 events; a quarter of the random part has several decisions pending at once: key a is a tap-hold and two defchordsv2 chords have tap-hold actions (a chord's action starts without passing the input queue), each with output keys of its own, random variants and timeouts 80/150/300, plain keys z y, histories of 2-14 toggles (each chord activated at most once, chord keys within 0-3 ms of each other). Oracle: reference model (decision kind, decision tick, complete timestamped output); for the several-pending scenario invariants instead of a model: exactly one tap/hold/timeout output per activation (or the chord's keys themselves), plain keys typed exactly once in their original order, the outcome of an activation precedes every plain key pressed after it (60 ms after a chord's last press), nothing left down. Non-trivial: the decision was taken while >= 1 other event was buffered, or a gap of H-1/H/H+1 occurs in the history. Distinct: hash of (config, history).",
             assumptions: vec![
                 "fewer than 32 events pending".into(),
                 "pinned tick conventions of DESIGN.md Appendix A.2 (hold fires when H ticks elapsed since the press was dequeued; H-since with concurrent-tap-hold)".into(),
